@@ -26,12 +26,58 @@ def corpus(c):
     return s
 
 
+def generate_own_module(c, tl2gen, sc):
+    """cc.generate with one scratch Go module per schema, so that schemas can be generated and built concurrently
+    (the shared module of cc.generate has one go.mod/go.sum that concurrent builds rewrite)."""
+    import shutil
+    import subprocess
+    from vlib.core import REPO, ROOT, goenv, run
+    mod = os.path.join(c.workdir, "genmod_" + sc.sid)
+    os.makedirs(mod, exist_ok=True)
+    with open(os.path.join(mod, "go.mod"), "w") as f:
+        f.write("module verif.local/h\n\ngo 1.24.0\n\nrequire github.com/VKCOM/tl v0.0.0\n\nreplace github.com/VKCOM/tl => %s\n" % REPO)
+    shutil.copyfile(os.path.join(REPO, "go.sum"), os.path.join(mod, "go.sum"))
+    out = os.path.join(mod, "g_" + sc.sid)
+    shutil.rmtree(out, ignore_errors=True)
+    cmd = [tl2gen, "--language=go", "--outdir=" + out, "--pkgPath=verif.local/h/g_%s/tl" % sc.sid,
+           "--basicPkgPath=github.com/VKCOM/tl/pkg/basictl", "--generateRandomCode",
+           "--checkLengthSanity=%s" % ("true" if sc.sanity else "false")]
+    if sc.tl2:
+        cmd.append("--tl2WhiteList=" + sc.tl2)
+    if sc.bytes_wl:
+        cmd.append("--generateByteVersions=" + sc.bytes_wl)
+    if sc.split:
+        cmd.append("--split-internal")
+    p = subprocess.run(cmd + sc.files, stdout=subprocess.PIPE, stderr=subprocess.STDOUT, env=goenv())
+    sc.gen_rc, sc.gen_out = p.returncode, p.stdout.decode(errors="replace")
+    if p.returncode != 0:
+        return False, sc.gen_out[-1500:]
+    main_dir = os.path.join(mod, "cmd_" + sc.sid)
+    shutil.rmtree(main_dir, ignore_errors=True)
+    os.makedirs(main_dir)
+    hdir = os.path.join(ROOT, "go", "hgen")
+    for fn in sorted(os.listdir(hdir)):
+        if fn.endswith(".go.tmpl"):
+            tmpl = open(os.path.join(hdir, fn)).read().replace("@PKG@", "verif.local/h/g_" + sc.sid)
+            if not os.path.isdir(os.path.join(out, "factory_bytes")):
+                tmpl = tmpl.replace('\t_ "verif.local/h/g_%s/factory_bytes"\n' % sc.sid, "")
+            open(os.path.join(main_dir, fn[:-5]), "w").write(tmpl)
+    binp = os.path.join(c.workdir, "bin", "gen_" + sc.sid)
+    env = goenv()
+    env["GOFLAGS"] = "-mod=mod"
+    rc, o = run(["go", "build", "-o", binp, "./cmd_" + sc.sid], cwd=mod, env=env)
+    if rc != 0:
+        return False, "go build of generated code failed:\n" + o[-3000:]
+    sc.impl = [binp]
+    return True, ""
+
+
 def prepare(c, hcodec, tl2gen, sc):
     d, err = cc.export_desc(c, hcodec, sc)
     if d is None:
         c.proof_failures.append({"stage": "descriptor export", "schema": sc.sid, "detail": err})
         return False
-    ok, msg = cc.generate(c, tl2gen, sc)
+    ok, msg = generate_own_module(c, tl2gen, sc)
     if not ok:
         c.proof_failures.append({"stage": "generate", "schema": sc.sid, "detail": msg})
         return False
